@@ -543,3 +543,25 @@ pub fn enumerate_single_faults(calls: &[Call]) -> Vec<Vec<String>> {
     plans.push(vec!["chunk:read:ANY:5".into(), "eintr_every:read:ANY:2".into()]);
     plans
 }
+
+/// `build` over a directory of N tiny diagrams where every output open fails.
+pub fn gen_wraparound_build(rng: &mut Rng) -> RunSpec {
+    let n = *rng.pick(&[255usize, 256, 256, 257, 512]);
+    let mut files = vec![];
+    for i in 0..n {
+        files.push((format!("many/f{:03}.bob", i), format!("+-+\n|{}|\n+-+\n", i % 10).into_bytes()));
+    }
+    let errno = *rng.pick(&[ERR_EACCES, ERR_ENOSPC, ERR_EROFS]);
+    RunSpec {
+        mode: Mode::Build(Build { pattern: Some("many/*.bob".into()), outdir: if rng.chance(1, 2) { Some("out".into()) } else { None } }),
+        dirs: vec!["many".into(), "out".into()],
+        files,
+        stdin: None,
+        stdin_pipe: false,
+        fifos: vec![],
+        faults: vec![format!("all:open:OUTPUT:{}", errno)],
+        rand_seed: rng.next_u64() | 1,
+        env: vec![],
+        prior: vec![],
+    }
+}
